@@ -66,6 +66,13 @@ class ModInfo:
                         for tt, vv in zip(t.elts, st.value.elts):
                             if isinstance(tt, ast.Name):
                                 self.assigns[tt.id] = vv
+                    elif isinstance(t, ast.Tuple) and all(isinstance(tt, ast.Name) for tt in t.elts):
+                        # `a, b = f(...)`: each name is the corresponding element of the value
+                        for k_, tt in enumerate(t.elts):
+                            sub = ast.Subscript(value=st.value, slice=ast.Constant(value=k_), ctx=ast.Load())
+                            ast.copy_location(sub, st.value)
+                            ast.fix_missing_locations(sub)
+                            self.assigns[tt.id] = sub
             elif isinstance(st, ast.AnnAssign) and isinstance(st.target, ast.Name) and st.value is not None:
                 self.assigns[st.target.id] = st.value
             elif isinstance(st, ast.ImportFrom):
